@@ -516,8 +516,8 @@ func (e *fnEnc) havocAll(st *state) {
 	var keep []kept
 	for _, a := range e.privateAllocs() {
 		at, ok := e.vals[a]
-		if !ok {
-			continue
+		if !ok || strings.Contains(at, "LOCAL-CELL") {
+			continue // not executed yet / tracked as a local value, not a memory cell
 		}
 		var ls []leafCell
 		func() {
@@ -877,7 +877,7 @@ func (e *fnEnc) declareInput(st *state, name string, t types.Type) string {
 // local variable whose address never leaves the function (privateAllocs).
 func (e *fnEnc) notPrivate(st *state, ref string) {
 	for _, a := range e.privateAllocs() {
-		if at, ok := e.vals[a]; ok && at != ref {
+		if at, ok := e.vals[a]; ok && at != ref && !strings.Contains(at, "LOCAL-CELL") {
 			e.assume(st, not(eq(app("root", ref), at)))
 		}
 	}
